@@ -128,6 +128,8 @@ class RetryFuture(_Future):
         super(RetryFuture, self).__init__()
         self.delegate_future = None
         self._executor = executor
+        # Set if cancel() was refused while no job existed for this future
+        self._stop_retry = False
         self.add_done_callback(self._clear_executor)
 
     def running(self):
@@ -360,6 +362,8 @@ class RetryExecutor(CanCustomizeBind, Executor):
                         job.args,
                         job.kwargs,
                     )
+                    # (a cancel() may have been refused during the hand-over)
+                    new_job.stop_retry = job.future._stop_retry
                     self._append_job(new_job)
                     self._log.debug("Submitted: %s", new_job)
 
@@ -428,12 +432,16 @@ class RetryExecutor(CanCustomizeBind, Executor):
 
                     break
 
-        # This shouldn't be possible.
-        # - Future holds a lock on itself, and has checked that it's not already done
-        # - The only other path for removing a job is in delegate_callback, but the
-        #   job is only removed *after* set_result/set_exception which would wait
-        #   for the future's lock.
-        assert found_job, "Cancel called on orphan %s" % future
+        if not found_job:
+            # The future is not done and there is no job: the job is being
+            # handed to the delegate by _submit_now right now. Either the
+            # callable is running inline in the delegate's submit() (and it is
+            # this thread asking, through the re-entrant locks), or the
+            # delegate has just refused it and the future is about to fail.
+            # Too late to cancel; but no further attempt will be made.
+            self._log.debug("Could not cancel, job is being submitted: %s", future)
+            future._stop_retry = True
+            return False
 
         self._log.debug("Try cancel delegate: %s", found_job)
 
